@@ -269,7 +269,10 @@ def run_c08(ctx):
         if r["e"] == "Op":
             ops[(r["op"], r["status"])] = ops.get((r["op"], r["status"]), 0) + 1
     need = {("lookup", "OK"), ("create", "OK"), ("mkdir", "OK"), ("mknod", "OK"), ("symlink", "OK"), ("link", "OK"), ("forget", "OK"),
-            ("batch_forget", "OK"), ("unlink", "OK"), ("rename", "OK")}
+            ("batch_forget", "OK"), ("unlink", "OK"), ("rename", "OK"),
+            # refused entry-returning requests (they must leave the counts alone)
+            ("create", "EPERM"), ("create", "EISDIR"), ("create", "EEXIST"), ("mknod", "EEXIST"), ("mkdir", "EEXIST"), ("symlink", "EEXIST"),
+            ("link", "EEXIST"), ("link", "ENOTDIR")}
     if not need <= set(ops):
         raise C.ToolError("coverage gate: operations never succeeded in C08 histories: %s" % sorted(need - set(ops)))
     plus = sum(1 for r in rows if r["e"] == "Dir" and r["plus"] and r["ents"])
@@ -405,6 +408,9 @@ def run_c15(ctx):
         raise C.ToolError("coverage gate: configurations without a quiescent census: %s" % sorted(quiet))
     if not any("EMFILE" in v for v in inj_stat.values()):
         raise C.ToolError("coverage gate: EMFILE injection never fired")
+    refused_w = sum(1 for r in rows if r["e"] == "Op" and r["op"] == "write" and r["status"] == "EPERM")
+    if refused_w == 0:
+        raise C.ToolError("coverage gate: no write was refused by seal_size (the handle must survive a refused request)")
     misuse = sum(1 for r in rows if r["e"] == "Op" and r["op"] in ("release", "releasedir", "read", "write") and r["status"] == "EBADF")
     ctx.extra.update({
         "distinct_nontrivial": len(quiet) * len(inj_stat),
@@ -413,6 +419,7 @@ def run_c15(ctx):
         "quiescent_censuses_per_cfg": quiet,
         "injected_op_statuses": {k: sorted(v) for k, v in sorted(inj_stat.items())},
         "refused_misuses": misuse,
+        "writes_refused_by_seal_size": refused_w,
         "exported_behaviours_replayed": n_exp,
         "model_checking": mcinfo,
     })
